@@ -16,7 +16,7 @@ LEVEL = "exploration"
 RULE = ("random lattice arrays (multiples of 1/8, zeros, negatives) for the ten arithmetic commands, every int64/float64 assignment "
         "for n<=4 inputs (sampled for 5), input orders permuted, weights int/float/mixed; plus single-fault cases (shape, weight count, "
         "empty list); distinct by (command, n, dtype assignment, mask classes, param kinds, fault kind)")
-REQUIRED_COUNTERS = ["ref_postconditions", "order_checks", "fault_checks", "zero_divisor_cells", "zero_weight_sum_cases", "repeated_field_cases", "later_command_checks", "fault_reevaluations"]
+REQUIRED_COUNTERS = ["ref_postconditions", "order_checks", "fault_checks", "zero_divisor_cells", "zero_weight_sum_cases", "repeated_field_cases", "later_command_checks", "fault_reevaluations", "chained_field_cases"]
 ASSUMPTIONS = ["reference models in mpv/ref.py", "int64 overflow and NaN/inf inputs are never generated", "result dtype is not judged"]
 
 COMMUTATIVE = ("Sum", "Multiply", "Minimum", "Maximum", "Mean", "WeightedSum", "WeightedMean")
@@ -43,6 +43,27 @@ def cases(ctx):
         yield _gen(rng, cmd, n, dts)
     for _ in range(ctx.n(400, 12000)):
         yield _gen_fault(rng)
+    # fields that are themselves results of real commands: a Copy of a fuzzy field next to a plain field (either order, evaluated
+    # one after the other), and integer fields whose values fit 32 bits while their sums / products do not
+    for i in range(ctx.n(60, 3000)):
+        cmd = rng.choice(["Sum", "Multiply", "Mean", "Maximum", "Minimum", "WeightedSum", "AMinusB", "WeightedMean"])
+        shape = arr.gen_shape(rng, 20)
+        n_ = int(numpy.prod(shape))
+        if i % 2 == 0:
+            yield {"kind": "chained", "flavour": "copy-of-fuzzy", "cmd": cmd, "shape": list(shape), "fz": [rng.randint(-8, 8) / 8.0 for _ in range(n_)], "x": [arr.lattice_value(rng) for _ in range(n_)]}
+        else:
+            big = [rng.choice([2000000000, 50000, 46341, 2147483647, -2147483648, 65536, 3, -40000]) for _ in range(n_)]
+            yield {"kind": "chained", "flavour": "wide-integers", "cmd": cmd, "shape": list(shape), "a": big, "b": [rng.choice([2000000000, 50000, 46341, 1, -65536, 2147483647]) for _ in range(n_)]}
+    # unsigned integer fields (values small enough for every width)
+    for i in range(ctx.n(60, 3000)):
+        cmd = rng.choice(["Sum", "Minimum", "Maximum", "Mean", "WeightedSum", "Copy", "ADividedByB", "WeightedMean"])
+        n = 1 if cmd == "Copy" else 2 if cmd in cmdgen.AB else rng.randint(1, 4)
+        shape = arr.gen_shape(rng, 20)
+        dts = [rng.choice(arr.DTYPES_U) for _ in range(n)]
+        ins = [arr.gen_array(rng, shape, dt) for dt in dts]
+        for s_ in ins:
+            s_["data"] = [min(v, 40) for v in s_["data"]]
+        yield {"kind": "value", "cmd": cmd, "inputs": ins, "params": cmdgen.gen_params(rng, cmd, n) if cmd not in ("WeightedSum", "WeightedMean") else {"Weights": [rng.choice([1, 2, 0.5]) for _ in range(n)]}, "order": list(range(n))}
 
 
 def _gen(rng, cmd, n, dts):
@@ -128,10 +149,51 @@ def _perm_params(params, order):
 
 
 def _dtype_class(ins):
-    return "".join("i" if s["dtype"].startswith("int") else "f" for s in ins)
+    return "".join("u" if s["dtype"].startswith("uint") else "i" if s["dtype"].startswith("int") else "f" for s in ins)
+
+
+def run_chained(ctx, case):
+    cmd, shape = case["cmd"], tuple(case["shape"])
+    prog = arr.new_program()
+    ctx.count("chained_field_cases")
+    ctx.feature(("chained", case["flavour"], cmd, len(shape)))
+    if case["flavour"] == "copy-of-fuzzy":
+        arr.standin(prog, "F", numpy.ma.array(numpy.array(case["fz"]).reshape(shape)), fuzzy=True)
+        arr.standin(prog, "X", numpy.ma.array(numpy.array(case["x"], dtype="float64").reshape(shape)), fuzzy=False)
+        prog.add_command(prog.find_command_class("Copy"), "C", {"InFieldName": "F"})
+        cols = {"C": [Fraction(v) for v in case["fz"]], "X": [Fraction(v) for v in case["x"]]}
+        orders = [["C", "X"], ["X", "C"]]
+    else:
+        arr.standin(prog, "A0", numpy.ma.array(numpy.array(case["a"], dtype="int64").reshape(shape)), fuzzy=False)
+        arr.standin(prog, "B0", numpy.ma.array(numpy.array(case["b"], dtype="int64").reshape(shape)), fuzzy=False)
+        prog.add_command(prog.find_command_class("Copy"), "A", {"InFieldName": "A0"})
+        prog.add_command(prog.find_command_class("Copy"), "B", {"InFieldName": "B0"})
+        cols = {"A": [Fraction(v) for v in case["a"]], "B": [Fraction(v) for v in case["b"]]}
+        orders = [["A", "B"], ["B", "A"]]
+    for k, names in enumerate(orders):
+        params = {"Weights": [2, 3]} if cmd in ("WeightedSum", "WeightedMean") else {}
+        args = dict(params, **({"A": names[0], "B": names[1]} if cmd in cmdgen.AB else {"InFieldNames": list(names)}))
+        out = arr.invoke(prog, cmd, "R%d" % k, args, via_run=(k == 1))
+        try:
+            want, scale = ref.MODELS[cmd]([cols[n_] for n_ in names], params)
+        except ref.Undefined:
+            continue
+        if any(w is not None and abs(w) > 2 ** 62 for w in want):
+            ctx.dontcare("exact result beyond 64 bits")
+            continue
+        ctx.count("ref_postconditions")
+        if not out.ok:
+            ctx.fail("%s:raises-%s:fields-are-results-of-commands:%s" % (cmd, out.inner() or out.err, case["flavour"]), {"order": names, "evaluated": "second" if k else "first", "error": str(out.exc)[:200]})
+            return
+        bad = ref.compare(out.value, want, scale=scale, rel=1e-12)
+        if bad:
+            ctx.fail("%s:%s:fields-are-results-of-commands:%s" % (cmd, bad[0], case["flavour"]), {"cell": bad[1], "got": bad[2], "want": bad[3], "order": names})
+            return
 
 
 def run_case(ctx, case):
+    if case["kind"] == "chained":
+        return run_chained(ctx, case)
     cmd, params = case["cmd"], case["params"]
     inputs = [arr.build(s) for s in case["inputs"]]
     if case["kind"] == "fault":
